@@ -19,13 +19,14 @@ import _wire
 
 def run(c):
     drv = c.build("addrtext")
-    _wire.mc(c, "AddrTextMC", "AddrTextMC.%s.cfg" % c.tier, timeout=3000)
-    # design-level demonstration of D7 (never a verdict): without the fallback the round trip fails
-    r0 = c.tlc("AddrTextMC", "AddrTextMC.nofallback.cfg", workers=2, timeout=600)
-    if "RoundTrip" in r0.inv_violated:
-        c.notes.append("model variant Fallback=FALSE (empty separator used as is): RoundTrip violated, as expected")
-    else:
-        raise vlib.Infra("the no-fallback model variant did not produce the expected counterexample:\n" + r0.out[-2000:])
+    if not c.replay:
+        _wire.mc(c, "AddrTextMC", "AddrTextMC.%s.cfg" % c.tier, timeout=3000)
+        # design-level demonstration of D7 (never a verdict): without the fallback the round trip fails
+        r0 = c.tlc("AddrTextMC", "AddrTextMC.nofallback.cfg", workers=2, timeout=600)
+        if "RoundTrip" in r0.inv_violated:
+            c.notes.append("model variant Fallback=FALSE (empty separator used as is): RoundTrip violated, as expected")
+        else:
+            raise vlib.Infra("the no-fallback model variant did not produce the expected counterexample:\n" + r0.out[-2000:])
     if c.replay:
         trace = c.replay
     else:
